@@ -62,6 +62,22 @@ PROPS["C02"]["families"] = [GENERAL_S, fam("fam_prefix", 30, 500), fam("fam_lane
 PROPS["C04"]["families"] = [GENERAL_S, fam("fam_num", 60, 1500)]
 PROPS["C19"]["families"] = [GENERAL_S, fam("fam_desc", 60, 1500)]
 
+def mc(name, quick=True, **kw):
+    d = {"name": name, "module": name, "cfg": name, "cfg_thorough": name + "_t", "quick": quick, "timeout": 400, "timeout_thorough": 3000}
+    d.update(kw)
+    return d
+
+
+MC = {
+    "C01": [mc("MC_Line")], "C02": [mc("MC_Line")], "C03": [mc("MC_Line"), mc("MC_Args")], "C04": [mc("MC_Args")], "C05": [mc("MC_Args")],
+    "C06": [mc("MC_Line")], "C07": [mc("MC_Args")], "C08": [mc("MC_Args")], "C09": [mc("MC_Flags")], "C10": [mc("MC_Codes")],
+    "C11": [mc("MC_Sched")], "C12": [mc("MC_Sched")], "C13": [mc("MC_Ring"), mc("MC_Sched")], "C14": [mc("MC_Hold")],
+    "C15": [mc("MC_Live"), mc("MC_Sched", quick=False)], "C16": [mc("MC_Mutex")], "C17": [], "C18": [mc("MC_Sched"), mc("MC_Hold")],
+    "C19": [mc("MC_List")], "C20": [mc("MC_Hist")],
+}
+for _p, _l in MC.items():
+    PROPS[_p]["mc"] = _l
+
 HOOK_COMMITS = []
 NOT_YET = {}
 _T = "TLA+ specification checked with TLC; conformance by trace validation of real executions (TLC evaluates CatImpl and the CatMon monitors on every recorded call)"
